@@ -96,19 +96,25 @@ def run(chk):
         if base.get("path") != "lut::Lut":
             continue
         label = "<Esop as %s>::from" % tr["s"]
-        cases = [(n, None) for n in range(0, (3 if chk.tier == "quick" else 4))]
+        cases = [(n, None, 0) for n in range(0, (3 if chk.tier == "quick" else 4))]
         # larger tables (several 64-bit blocks): a few symbolic table bits at a time, the others 0.  Positions with at
         # most two 0 bits in their index (few supersets -> short runs), plus dense ones (bit 0: every cube is emitted)
         for n in range(3, (9 if chk.tier == "quick" else 11)):
             full_ = (1 << n) - 1
             sparse = sorted({full_ & ~((1 << x) | (1 << y)) for x in range(n) for y in range(n)} | {full_})
             for k_ in range(0, len(sparse), 3):
-                cases.append((n, tuple(sparse[k_:k_ + 3])))
+                cases.append((n, tuple(sparse[k_:k_ + 3]), 0))
             if n <= (8 if chk.tier == "quick" else 9):
-                cases.append((n, (0,)))
-                cases.append((n, (5 & full_, 1 << (n - 1))))
-        for n, window in cases:
-            key = "%s n=%d" % (label, n) if window is None else "%s n=%d table bits %s symbolic, others 0" % (label, n, list(window))
+                cases.append((n, (0,), 0))
+                cases.append((n, (5 & full_, 1 << (n - 1)), 0))
+                # dense tables: the same kind of window on a background of ones (a conversion that treats mostly-one
+                # tables separately - through the complement, say - is only reached this way)
+                for k_ in range(0, len(sparse), 9):
+                    cases.append((n, tuple(sparse[k_:k_ + 3]), 1))
+                cases.append((n, (0,), 1))
+                cases.append((n, (0, full_), 1))
+        for n, window, bg in cases:
+            key = "%s n=%d" % (label, n) if window is None else "%s n=%d table bits %s symbolic, others %d" % (label, n, list(window), bg)
             try:
                 it = Interp(facts, max_paths=1024, max_steps=20000000)     # needs 1.5M today (thorough)
                 st = State()
@@ -117,7 +123,7 @@ def run(chk):
                 else:
                     it.prune = True
                     support = list(window)
-                    words = [W(64, bits=[B.atom("a[%d]" % (w_ * 64 + p_)) if (w_ * 64 + p_) in window else ZERO for p_ in range(64)]) for w_ in range(table_words(n))]
+                    words = [W(64, bits=[B.atom("a[%d]" % (w_ * 64 + p_)) if (w_ * 64 + p_) in window else (B.ONE if (bg and w_ * 64 + p_ < (1 << n)) else ZERO) for p_ in range(64)]) for w_ in range(table_words(n))]
                 lut = KD.mk(st, n, words)
                 outs = it.call_body(bd, [arg_for(bd["sig"]["inputs"][0], lut, st)], st, {})
                 v, d = PROVED, ""
@@ -156,7 +162,7 @@ def run(chk):
                         v, d = REFUTED, "result has num_vars %s" % C.num_vars(o.value).val
                         break
                     # algebraic normal form of the function on this path
-                    f = [w_.get("a[%d]" % p, 0) if p in support else 0 for p in range(1 << n)]
+                    f = [w_.get("a[%d]" % p, 0) if p in support else bg for p in range(1 << n)]
                     want = []
                     for S_ in range(1 << n):
                         c = 0
